@@ -124,7 +124,7 @@ def run(ctx):
             raise tlc.MachineryError("eq_matrix failed: %s" % r)
         for o in r["results"]:
             info[o["id"]] = o
-            send.append({"id": o["id"], "kind": "eq", "eq": o["eq"], "eq0": o["eq0"], "hash": o["hash"], "unif": o["unif"], "ground": o["ground"]})
+            send.append({"id": o["id"], "kind": "eq", "eq": o["eq"], "eq0": o["eq0"], "eq2": o["eq2"], "hash": o["hash"], "unif": o["unif"], "ground": o["ground"]})
     J = tlc.judge_batch("JudgeTerms", send, nproc=ctx.nproc, tag="c18")
     seen_sig = set()
     for c in send:
@@ -159,7 +159,7 @@ def replay(ctx, path):
     sp = d["case"]["specs"]
     o = pl.run_local("eq_matrix", groups=[{"id": 0, "specs": sp}])["results"][0]
     print(o)
-    j = tlc.judge_batch("JudgeTerms", [{"id": 0, "kind": "eq", "eq": o["eq"], "eq0": o["eq0"], "hash": o["hash"], "unif": o["unif"],
+    j = tlc.judge_batch("JudgeTerms", [{"id": 0, "kind": "eq", "eq": o["eq"], "eq0": o["eq0"], "eq2": o["eq2"], "hash": o["hash"], "unif": o["unif"],
                                         "ground": o["ground"]}], nproc=1)[0]
     print(j)
     ctx.evaluations = 1
